@@ -219,6 +219,37 @@ theorem remove_compartment_frame (g g' : CGraph ε) (c : Comp ε) (h : removeCom
 theorem subs_maps_flows (g : CGraph ε) (f : ε → ε) (x y : Node ε) :
     (g.mapRates f).getFlow x y = (g.getFlow x y).map f := getFlow_mapRates g f x y
 
+/-- Relabelling one compartment by a value not yet in the graph — what `set_dose`, `add_dose`,
+    `remove_dose`, `set_lag_time`, `set_bioavailability`, `set_input` do (each is
+    `relabel_nodes(G, {c: c.replace(field=…)}, copy=False)`, see the `rfl` examples below) —
+    succeeds, moves the compartment to the end of the node order, keeps all other nodes in
+    order, and keeps EVERY flow (between the renamed endpoints), including self-loops and
+    flows to `output`. -/
+theorem relabel_preserves_flows (g : CGraph ε) (h : g.WF) (c c' : Comp ε)
+    (hc : Node.comp c ∈ g.nodes) (hc' : Node.comp c' ∉ g.nodes) :
+    ∃ g', relabelE g [(.comp c, .comp c')] = .ok g'
+      ∧ g'.nodes = g.nodes.filter (fun n => decide (n ≠ .comp c)) ++ [.comp c']
+      ∧ ∀ x y, x ∈ g.nodes → y ∈ g.nodes →
+          g'.getFlow (if x = .comp c then .comp c' else x) (if y = .comp c then .comp c' else y) = g.getFlow x y := by
+  refine ⟨g.relabel1 (.comp c) (.comp c'), ?_, nodes_relabel1 h _ _ hc hc', ?_⟩
+  · unfold relabelE; rw [relabel_single h _ _ hc hc']
+  · intro x y hx hy; exact getFlow_relabel1 h _ _ hc hc' x y hx hy
+
+/-- setting a field to the value it already has changes nothing -/
+theorem relabel_same_value (g : CGraph ε) (c : Comp ε) : relabelE g [(.comp c, .comp c)] = .ok g := by
+  unfold relabelE; rw [relabel_identity]
+
+example (g : CGraph ε) (c : Comp ε) (e : ε) :
+    setLagTime g c e = relabelE g [(.comp c, .comp { c with lagTime := e })] := rfl
+example (g : CGraph ε) (c : Comp ε) (e : ε) :
+    setBioavailability g c e = relabelE g [(.comp c, .comp { c with bioavailability := e })] := rfl
+example (g : CGraph ε) (c : Comp ε) (e : ε) :
+    setInput g c e = relabelE g [(.comp c, .comp { c with input := e })] := rfl
+example (g : CGraph ε) (c : Comp ε) (ds : List (Dose ε)) :
+    setDose g c ds = relabelE g [(.comp c, .comp { c with doses := ds })] := rfl
+example (g : CGraph ε) (c : Comp ε) (ds : List (Dose ε)) :
+    addDose g c ds = relabelE g [(.comp c, .comp { c with doses := c.dosesView ++ ds })] := rfl
+
 /-! ### serialisation -/
 
 /-- `from_dict(to_dict(cs))` has the same nodes in the same order and the same flows, for
